@@ -1,9 +1,12 @@
 """C07 — decode -> encode -> decode is a fixpoint over machine words: every distinct rendering the decoders produce over
 the exhausted cells is fed verbatim to the real assembler at the same address; the bytes it produces must decode to
 the same instruction (numeric normalisation)."""
+import re
 from engine import cells, cpus, check, rt
 from engine import run as R
 from checks import C08
+
+NUMABS = re.compile(r"(0x[0-9a-fA-F]+|\$[0-9a-fA-F]+|\d+)")
 
 LEVEL = "model_checking"
 
@@ -56,6 +59,71 @@ def work(job):
         return job, {"harness": "%s: %s" % (type(e).__name__, e)}, [], []
 
 
+def sweep_work(job):
+    """operand bytes beyond the exhausted leading half-word: for one representative byte string per (rendering shape, length)
+    of a CPU, every value of the third byte and every value of the fourth byte -> same result shape as work()"""
+    try:
+        fl, ci, addr, nreps = job
+        reps = {}
+        for fill in ("ff", "00"):
+            r = cells.cell_job((fl, ci, addr, fill, 0, True))
+            for cnt, ln, bh, t in r["texts"]:
+                if not t or "???" in t or ln < 3:
+                    continue
+                reps.setdefault((NUMABS.sub("N", t), ln), bh)
+        pats = []
+        for (shape, ln), bh in sorted(reps.items())[:nreps]:
+            base = bytearray(bytes.fromhex(bh).ljust(16, b"\0"))
+            for pos in (2, 3):
+                if pos >= ln:
+                    continue
+                for b in range(256):
+                    p = bytearray(base)
+                    p[pos] = b
+                    pats.append(bytes(p))
+        pats = sorted(set(pats))
+        items = {}
+        for chunk in R.batched(pats, 20000):
+            blocks, died, err = cells.run_probe(fl, ["one %d %x %s" % (ci, addr, p.hex()) for p in chunk], name="swp", cpu=120)[:3]
+            if died is not None:
+                break
+            for p, blk in zip(chunk, blocks):
+                for l in blk:
+                    if l.startswith("O "):
+                        _, ln, san, *t = l.split(" ", 3)
+                        t = t[0] if t else ""
+                        ln = int(ln)
+                        if t and "???" not in t and 0 < ln <= 16:
+                            items.setdefault(t, (p[:ln].hex(), 0))
+                            items[t] = (items[t][0], items[t][1] + 1)
+        lst = [(t, bh, cnt) for t, (bh, cnt) in sorted(items.items())]
+        out = rt.roundtrip(ci, addr, [t for t, _, _ in lst])
+        st = {"texts": len(lst), "accepted": 0, "rejected": 0, "same": 0, "identical_bytes": 0, "fatal": 0, "byte_strings": 0}
+        viol, acc = [], []
+        for (t, bh, cnt), o in zip(lst, out):
+            if o is None:
+                continue
+            if "fatal" in o:
+                st["fatal"] += 1
+                continue
+            if o["status"] != 0 or not o["B"]:
+                st["rejected"] += 1
+                continue
+            st["accepted"] += 1
+            st["byte_strings"] += cnt
+            if o["B"].hex() == bh:
+                st["identical_bytes"] += 1
+            acc.append((t, bh, o))
+            if len(o["texts"]) == 1 and same_instruction(t, o["texts"][0]):
+                st["same"] += 1
+            else:
+                # identity by rendering: which byte string first produced a text depends on how many representatives a tier sweeps
+                viol.append(("t:" + t, t, o["B"].hex(), " / ".join(o["texts"])))
+        return (fl, ci, addr, "sweep", 0, True), st, viol, acc
+    except Exception as e:
+        return job, {"harness": "%s: %s" % (type(e).__name__, e)}, [], []
+
+
 def plan(quick):
     return [("rec_zero", ci, addr, fill, half, True) for (ci, addr, fill, half) in C08.cell_plan(quick)]
 
@@ -68,6 +136,11 @@ def run(ctx):
     res = R.pmap(work, jobs, chunk=1, deadline=ctx.deadline)
     if len(res) < len(jobs):
         ctx.capped = True
+    sjobs = [("rec_zero", c["index"], 0x1000, 60 if ctx.quick() else 5000) for c in cl]
+    sres = R.pmap(sweep_work, sjobs, chunk=1, deadline=ctx.deadline)
+    if len(sres) < len(sjobs):
+        ctx.capped = True
+    res = res + sres
     percpu, tot = {}, {"texts": 0, "accepted": 0, "same": 0, "byte_strings": 0}
     samples = []
     for job, st, viol, acc in res:
@@ -86,7 +159,8 @@ def run(ctx):
             tot[k] += st.get(k, 0)
         for bh, t, b2, t2 in viol:
             ctx.violation("%s|%x|%s" % (name, addr, bh), "meaning-changed",
-                          "[%s @0x%x] bytes %s decode to \"%s\"; assembling that text gives %s, which decodes to \"%s\"" % (name, addr, bh, t, b2, t2),
+                          "[%s @0x%x] %s decode to \"%s\"; assembling that text gives %s, which decodes to \"%s\"" % (
+                              name, addr, "operand-byte variants" if bh.startswith("t:") else "bytes " + bh, t, b2, t2),
                           {"cpu": name, "addr": addr, "bytes": bh, "text": t})
         if len(samples) < 4 and acc and len(res) and (ci % 17 == 0):
             t, bh, o = acc[len(acc) // 2]
